@@ -130,7 +130,7 @@ class QuantileFit(FrameFit):
     frame_only = True
     variants = [False, True]
     params = ["fit_intercept", "copy_X", "n_jobs", "positive", "max_iter", "verbose", "delta", "quantile"]
-    loop_kinds = {0: {"lastE": "real", "beta": ("nd", 1), "epsilon": ("nd", 1), "E": "real", "self.n_iter_": "int"}}
+    loop_kinds = {0: {"*none*": "real", "lastE": "real", "beta": ("nd", 1), "epsilon": ("nd", 1), "E": "real", "self.n_iter_": "int"}}
 
     def setup(self, E, has_w):
         f = dict(fit_intercept=E.bool("fit_intercept"), copy_X=True, n_jobs=None, positive=E.bool("positive"),
